@@ -44,6 +44,9 @@ structure LogCall where
   lvl : Nat
   derived : Bool
   fail : Bool
+  /-- logged through a `*slog.Logger` obtained (`Logger()`) before any `StartBuffering`: it holds the
+      handler chain as it was then — not wrapped, level as configured at construction (finding K20f) -/
+  stale : Bool := false
   deriving Repr, DecidableEq
 
 inductive Op where
@@ -160,10 +163,12 @@ def advance (fl : Flags) (s : St) (g : Nat) : St :=
         match op with
         | .log c =>
           let s := emit s [.begin g w.idx]
-          -- `Logger.log`: shutdown check (only on the Logger's own methods), level check
-          let accepted := decide (s.level ≤ c.lvl) && (c.derived || !s.shutdown)
+          -- `Logger.log`: shutdown check (only on the Logger's own methods), level check; a stale
+          -- slog.Logger checks the level it was built with (Info) and knows nothing of the buffer
+          let accepted := if c.stale then decide (1 ≤ c.lvl)
+                          else decide (s.level ≤ c.lvl) && (c.derived || !s.shutdown)
           if !accepted then finishOp s g w
-          else if s.wrapped && s.buffering then
+          else if !c.stale && s.wrapped && s.buffering then
             finishOp { s with buffer := s.buffer ++ [{ g := g, c := c }] } g w
           else setWorker s g { w with gate := some (.pass { g := g, c := c }) }
         | .startBuffering =>
